@@ -275,6 +275,8 @@ TraceSpec == TraceInit /\ [][TraceNext]_tvars
 
 -----------------------------------------------------------------------------
 NoStepViolation == viol = {}
+\* a node only ever knows nodes that exist (evaluated first: the other invariants look the owner up)
+OnlyRealNodes == \A o \in Node : DOMAIN st[o] \subseteq Node
 MatchesRef == MatchesRefOf(ref)
 FoldEqualsView == FoldEqualsViewOf(fold)
 CaughtUpMirrors == CaughtUpMirrorsOf(obsrt)
